@@ -115,6 +115,7 @@ def make_history(args):
         return gen.gen_spectrum(rng, nf, nd, kind=rng.choice(["blobs", "noisy"]))[0] + 0.015625
     evers = [newE()]
     dvers = [dirs0]
+    fvers = [freq]
     obj = build(freq, dirs0, evers[0], kind)
     nsteps = rng.randint(2, 12)
     ops = []
@@ -157,6 +158,12 @@ def make_history(args):
             dvers.append(nd_)
             obj["dir"] = nd_
             results.append(None)
+        elif r < 0.76:
+            ops.append("af")
+            nf_ = fvers[-1] * rng.choice([1.25, 0.5]) if rng.random() < 0.7 else fvers[-1] + 0.015625
+            fvers.append(nf_)
+            obj["freq"] = nf_
+            results.append(None)
         elif r < 0.8:
             mk, mth = rng.randint(2, 9), rng.randint(2, 9)
             ops.append(f"pt:{mk}:{mth}")
@@ -181,7 +188,7 @@ def make_history(args):
             ops.append("rd")
             read_swan(str(REPO / "tests/sample_files/swanfile.spec"))
             results.append(None)
-    return dict(icase=icase, kind=kind, ops=ops, freq=freq, evers=evers, dvers=dvers, results=results)
+    return dict(icase=icase, kind=kind, ops=ops, freq=freq, evers=evers, dvers=dvers, fvers=fvers, results=results)
 
 
 def run_check():
@@ -206,21 +213,21 @@ def run_check():
         edits_before = False
         for i, (op, pred, res) in enumerate(zip(h["ops"], toks[1:], h["results"])):
             kindop = op.split(":")[0]
-            if kindop in ("ee", "ad", "pt", "al", "rd", "us"):
+            if kindop in ("ee", "ad", "af", "pt", "al", "rd", "us"):
                 if kindop != "us" or res is None:
-                    edits_before = edits_before or kindop in ("ee", "ad", "pt", "al")
+                    edits_before = edits_before or kindop in ("ee", "ad", "af", "pt", "al")
                 if isinstance(res, str):
                     ck.fail("stats(unknown)", f"unknown statistic name: {res} (expected ValueError)", dict(case, step=i), "unknown_stat_not_valueerror")
                 continue
             nobs += 1
             name = op.split(":")[1]
-            ev, dv, known = (int(x) for x in pred.split(":"))
+            ev, dv, known, fv = (int(x) for x in pred.split(":"))
             ck.case((h["kind"], kindop, name, edits_before, tuple(o.split(":")[0] for o in h["ops"][:i])[-3:]), edits_before,
                     sample=dict(ops=h["ops"][: i + 1], predicted_versions=pred))
             if isinstance(res, str):
                 ck.fail(name, f"observed operation raised: {res}", dict(case, step=i), "crash")
                 continue
-            fresh = build(h["freq"], h["dvers"][dv], h["evers"][ev], h["kind"])
+            fresh = build(h["fvers"][fv], h["dvers"][dv], h["evers"][ev], h["kind"])
             try:
                 exp = observe(fresh, name, kindop)
             except Exception as e:
@@ -228,7 +235,7 @@ def run_check():
                 continue
             if not same(res, exp):
                 # which clause? compare with the fresh CURRENT contents (the property's oracle)
-                cur = observe(build(h["freq"], h["dvers"][-1] if False else h["dvers"][count(h["ops"][:i], "ad")],
+                cur = observe(build(h["fvers"][count(h["ops"][:i], "af")], h["dvers"][count(h["ops"][:i], "ad")],
                                     h["evers"][count(h["ops"][:i], "ee")], h["kind"]), name, kindop)
                 if same(res, cur):
                     ck.disagree(name, f"model predicted versions {pred} but the implementation used the current contents", dict(case, step=i))
@@ -236,10 +243,10 @@ def run_check():
                     ck.fail(name, f"step {i} ({op}) differs from the same call on a freshly constructed object with the same contents",
                             dict(case, step=i), "stale_result")
             if ck.tier == "thorough" and len(sub_jobs) < 40 and edits_before:
-                sub_jobs.append((h, i, name, kindop, ev, dv, res))
+                sub_jobs.append((h, i, name, kindop, ev, dv, fv, res))
     # thorough: repeat some observations in a fresh process
-    for (h, i, name, kindop, ev, dv, res) in sub_jobs:
-        payload = dict(freq=h["freq"].tolist(), dirs=h["dvers"][dv].tolist(), E=h["evers"][ev].tolist(), kind=h["kind"], name=name, via=kindop)
+    for (h, i, name, kindop, ev, dv, fv, res) in sub_jobs:
+        payload = dict(freq=h["fvers"][fv].tolist(), dirs=h["dvers"][dv].tolist(), E=h["evers"][ev].tolist(), kind=h["kind"], name=name, via=kindop)
         env = dict(os.environ, VERIF_C18_SUB=json.dumps(payload))
         r = subprocess.run([sys.executable, "-W", "ignore", "-m", "harness.checks.c18"], cwd=ROOT, env=env, capture_output=True, text=True)
         try:
